@@ -273,7 +273,11 @@ class Composition(Loggable):
                 joined = " >> ".join(
                     [
                         f"({'*' if delayed else ''}{t or '-'}) {c.name}"
-                        for c, (t, delayed) in reversed(chain.items())
+                        for c, (t, delayed) in (
+                            # components entered via a pull-based link have no lag entry
+                            (c, v or (None, False))
+                            for c, v in reversed(chain.items())
+                        )
                     ]
                 )
                 raise FinamCircularCouplingError(
